@@ -37,7 +37,7 @@ func jsonCells(tier string) []cells.Cell {
 	for _, k := range cells.K2Names {
 		k2[k] = true
 	}
-	for _, k := range []string{"boolean", "integer", "int64", "number", "float", "any", "map<string>", "object+addtrue", "object+add<string>", "array<object>", "array<ref>", "oneOf+disc", "allOf[ref,ref]", "map<ref>", "map<any>"} {
+	for _, k := range []string{"boolean", "integer", "int64", "number", "float", "any", "map<string>", "object+addtrue", "object+add<string>", "array<object>", "array<ref>", "oneOf+disc", "allOf[ref,ref]", "map<ref>", "map<any>", "array<map<int32>>", "array<oneOf[ref,ref]>", "array<array<string>>", "oneOf+disc-partial"} {
 		k2[k] = true
 	}
 	for _, c := range cells.SchemaCells() {
@@ -218,6 +218,11 @@ func jsonFamily(run *report.Run, mode string) {
 // jsonDiscInfo finds the (single) discriminated oneOf of a state and whether it has an
 // undiscriminated one.
 func jsonDiscInfo(s *spec.Spec, pl *drv.JSONPayload) {
+	pl.DiscProp, pl.VariantKeys, pl.Ambiguous = discInfo(s)
+}
+
+func discInfo(s *spec.Spec) (discProp string, variantKeys [][]string, ambiguous bool) {
+	pl := &drv.JSONPayload{}
 	var walk func(sc *spec.Schema, depth int)
 	walk = func(sc *spec.Schema, depth int) {
 		if sc == nil || depth > 6 {
@@ -273,4 +278,5 @@ func jsonDiscInfo(s *spec.Spec, pl *drv.JSONPayload) {
 			}
 		}
 	}
+	return pl.DiscProp, pl.VariantKeys, pl.Ambiguous
 }
